@@ -63,12 +63,23 @@ Definition unset_or (P : bytes -> Prop) (b : bytes) : Prop := b = [] \/ P b.
 (* error data: valid JSON whose compaction is valid UTF-8; the message is ANY byte string *)
 Definition err_ok (e : werr) : Prop := unset_or (fun d => exists q, compact d = Some q /\ valid_utf8 q = true) (we_data e).
 
+(* an error the encoder of a message (jmessage.toJSON, fix F16) writes on one line: data that are
+   not JSON at all are fine, they are left out; what is required is only that IF they are JSON,
+   their compaction is valid UTF-8 *)
+Definition err_sendable (e : werr) : Prop :=
+  we_data e = [] \/ forall q, compact (we_data e) = Some q -> valid_utf8 q = true.
+
+Lemma err_ok_sendable e : err_ok e -> err_sendable e.
+Proof.
+  intros [H|(q & Hq & Vq)]; [left; exact H|]. right. intros q' Hq'. rewrite Hq in Hq'. injection Hq' as <-. exact Vq.
+Qed.
+
 Record msg_ok (m : jmsg) : Prop := {
   ok_method : valid_utf8 (j_method m) = true;
   ok_id : unset_or id_ok (j_id m);
   ok_params : unset_or marshalled (j_params m);
   ok_result : unset_or marshalled (j_result m);
-  ok_error : forall e, j_error m = Some e -> err_ok e }.
+  ok_error : forall e, j_error m = Some e -> err_sendable e }.
 
 Lemma marshalled_safe p : marshalled p -> line_safe p = true.
 Proof. intros [[p0 H] V]. unfold line_safe. rewrite (compact_no_ctl _ _ H), V. reflexivity. Qed.
@@ -95,12 +106,50 @@ Proof.
       apply line_safe_app; [|reflexivity]. unfold line_safe. rewrite (compact_no_ctl _ _ Hq), Vq. reflexivity.
 Qed.
 
+(* the error member of a message is always produced (fix F16) *)
+Lemma marshal_error_no_data e : we_data e = [] -> exists b, marshal_error e = Some b.
+Proof. intros H. unfold marshal_error. rewrite H. cbn [beq]. eexists; reflexivity. Qed.
+
+Lemma enc_error_total e : exists b, enc_error e = Some b.
+Proof.
+  unfold enc_error, enc_error_gen. destruct (marshal_error e) as [b|]; [exists b; reflexivity|].
+  apply marshal_error_no_data. reflexivity.
+Qed.
+
+Lemma marshal_error_none e : marshal_error e = None <-> (we_data e <> [] /\ compact (we_data e) = None).
+Proof.
+  unfold marshal_error. destruct (beq (we_data e) []) eqn:Eb.
+  - apply beq_eq in Eb. split; [discriminate|]. intros [H _]. contradiction.
+  - assert (Hne : we_data e <> []) by (intros H; rewrite H in Eb; discriminate Eb).
+    destruct (compact (we_data e)); split; try discriminate; try (intros [_ H]; discriminate); auto.
+Qed.
+
+(* ... without its data when they are not JSON *)
+Lemma enc_error_fallback e : marshal_error e = None -> enc_error e = marshal_error (drop_data e).
+Proof. intros H. unfold enc_error, enc_error_gen. rewrite H. reflexivity. Qed.
+
+Lemma enc_error_marshal e b : marshal_error e = Some b -> enc_error e = Some b.
+Proof. intros H. unfold enc_error, enc_error_gen. rewrite H. reflexivity. Qed.
+
+Lemma enc_error_safe e : err_sendable e -> exists b, enc_error e = Some b /\ line_safe b = true.
+Proof.
+  intros H.
+  assert (Hok : err_ok e -> exists b, enc_error e = Some b /\ line_safe b = true).
+  { intros Ho. destruct (marshal_error_safe e Ho) as (b & Hb & Sb). exists b. split; [exact (enc_error_marshal e b Hb) | exact Sb]. }
+  destruct H as [H|H]; [apply Hok; left; exact H|].
+  destruct (marshal_error e) as [b|] eqn:Em.
+  - apply Hok. destruct (beq (we_data e) []) eqn:Eb; [left; apply beq_eq; exact Eb|].
+    right. unfold marshal_error in Em. rewrite Eb in Em.
+    destruct (compact (we_data e)) as [q|] eqn:Ec; [|discriminate]. exists q. split; [reflexivity | exact (H q eq_refl)].
+  - rewrite (enc_error_fallback e Em). apply marshal_error_safe. left. reflexivity.
+Qed.
+
 Lemma unset_or_safe (P : bytes -> Prop) b : (forall x, P x -> line_safe x = true) -> unset_or P b -> line_safe b = true.
 Proof. intros HP [->|H]; [reflexivity | auto]. Qed.
 
 Lemma enc_msg_safe m : msg_ok m -> exists b, enc_msg m = Some b /\ line_safe b = true.
 Proof.
-  intros [Hm Hi Hp Hr He]. unfold enc_msg.
+  intros [Hm Hi Hp Hr He]. unfold enc_msg, enc_msg_gen.
   assert (Hhead : line_safe (s_head ++ (if beq (j_id m) [] then [] else s_id ++ j_id m)) = true).
   { apply line_safe_app; [reflexivity|]. destruct (beq (j_id m) []); [reflexivity|].
     apply line_safe_app; [reflexivity|]. exact (unset_or_safe _ _ id_ok_safe Hi). }
@@ -114,7 +163,7 @@ Proof.
       apply line_safe_app; [reflexivity|]. apply line_safe_app; [|reflexivity].
       exact (unset_or_safe _ _ marshalled_safe Hr).
     + destruct (j_error m) as [e|] eqn:Ee.
-      * destruct (marshal_error_safe e (He e eq_refl)) as (eb & -> & Hs).
+      * fold enc_error. destruct (enc_error_safe e (He e eq_refl)) as (eb & -> & Hs).
         eexists; split; [reflexivity|]. apply line_safe_app; [exact Hhead|].
         apply line_safe_app; [reflexivity|]. apply line_safe_app; [exact Hs | reflexivity].
       * eexists; split; [reflexivity|]. apply line_safe_app; [exact Hhead | reflexivity].
@@ -127,11 +176,28 @@ Proof.
   apply line_safe_app; [exact Hb|]. apply line_safe_app; [reflexivity | exact IH].
 Qed.
 
+Lemma enc_all_cons m r :
+  enc_all (m :: r) = match enc_msg m, enc_all r with
+                     | Some b, Some bs' => Some (b :: bs')
+                     | _, _ => None
+                     end.
+Proof. reflexivity. Qed.
+
+Lemma enc_msgs_shape batch ms :
+  enc_msgs batch ms = match ms, batch with
+                      | [m], false => enc_msg m
+                      | _, _ => match enc_all ms with
+                                | Some bl => Some (91 :: join_with [44] bl ++ [93])
+                                | None => None
+                                end
+                      end.
+Proof. reflexivity. Qed.
+
 Lemma enc_all_safe ms : Forall msg_ok ms ->
   exists bl, enc_all ms = Some bl /\ length bl = length ms /\ Forall (fun b => line_safe b = true) bl.
 Proof.
   induction 1 as [|m ms Hm _ (bl & E & L & F)]; [exists []; repeat split; constructor|].
-  destruct (enc_msg_safe m Hm) as (b & Eb & Sb). cbn [enc_all]. rewrite Eb, E.
+  destruct (enc_msg_safe m Hm) as (b & Eb & Sb). rewrite enc_all_cons, Eb, E.
   exists (b :: bl). repeat split; [cbn; lia | constructor; assumption].
 Qed.
 
@@ -145,7 +211,7 @@ Proof.
   { rewrite E. eexists; split; [reflexivity|].
     change (91 :: join_with [44] bl ++ [93]) with ([91] ++ join_with [44] bl ++ [93]).
     apply line_safe_app; [reflexivity|]. apply line_safe_app; [apply join_safe; exact F | reflexivity]. }
-  unfold enc_msgs. destruct ms as [|m [|m2 ms2]]; try exact Harr.
+  rewrite enc_msgs_shape. destruct ms as [|m [|m2 ms2]]; try exact Harr.
   destruct batch; [exact Harr|]. apply enc_msg_safe. inversion H; assumption.
 Qed.
 
@@ -789,6 +855,16 @@ Definition spec_error_codec : Prop := forall d e b, N.succ d <= max_depth -> err
                                we_msg := if valid_utf8 (we_msg e) then we_msg e else snd (true, match unmarshal_string (escape_string (we_msg e)) with Some (Some x) => x | _ => [] end);
                                we_data := match compact (we_data e) with Some q => if beq (we_data e) [] then [] else q | None => [] end |}, true).
 
+(* in the round-trip domain the data are JSON: the error member is json.Marshal of the *Error *)
+Lemma enc_error_rt d e eb : err_rt_at d e -> enc_error e = Some eb -> marshal_error e = Some eb.
+Proof.
+  intros [_ Hd] He. destruct (marshal_error e) as [b|] eqn:Em.
+  - rewrite (enc_error_marshal e b Em) in He. exact He.
+  - exfalso. unfold marshal_error in Em. destruct Hd as [Hd|(q & Hq & _)].
+    + rewrite Hd in Em. discriminate Em.
+    + rewrite Hq in Em. destruct (beq (we_data e) []); discriminate Em.
+Qed.
+
 Definition v20 : bytes := Eval vm_compute in escape_string version.
 
 (* the members the encoder writes *)
@@ -819,9 +895,9 @@ Proof. congruence. Qed.
 
 Lemma enc_msg_fields m b : enc_msg m = Some b ->
   exists eb, b = obj_text (msg_fields m eb) /\ (forall e, j_error m = Some e -> negb (beq (j_method m) []) = false ->
-                                                negb (beq (j_result m) []) = false -> marshal_error e = Some eb).
+                                                negb (beq (j_result m) []) = false -> enc_error e = Some eb).
 Proof.
-  unfold enc_msg, msg_fields, obj_text. cbv zeta.
+  unfold enc_msg, enc_msg_gen, msg_fields, obj_text. cbv zeta. fold enc_error.
   assert (Hb : exists base, base = [(k_jsonrpc, v20)] ++ (if beq (j_id m) [] then [] else [(k_id, j_id m)]) /\
                s_head ++ (if beq (j_id m) [] then [] else s_id ++ j_id m) = obj_open base /\ base <> []).
   { eexists; split; [reflexivity|]. destruct (beq (j_id m) []); [split; [reflexivity | discriminate]|].
@@ -844,7 +920,7 @@ Proof.
     + intros H; apply some_eq in H; subst b. exists []. split; [|discriminate]. rewrite Hm.
       rewrite obj_snoc by exact Hne. rewrite <- !app_assoc. reflexivity.
     + destruct (j_error m) as [e|].
-      * destruct (marshal_error e) as [eb|] eqn:Ee; [|discriminate]. intros H; apply some_eq in H; subst b. exists eb.
+      * destruct (enc_error e) as [eb|] eqn:Ee; [|discriminate]. intros H; apply some_eq in H; subst b. exists eb.
         split; [|intros e0 H0 _ _; apply some_eq in H0; subst e0; exact Ee]. rewrite Hm.
         rewrite obj_snoc by exact Hne. rewrite <- !app_assoc. reflexivity.
       * intros H; apply some_eq in H; subst b. exists []. split; [|discriminate]. rewrite Hm, app_nil_r. reflexivity.
@@ -904,6 +980,15 @@ Record msg_rt_at (d : N) (m : jmsg) : Prop := {
   (* only an error that is emitted matters *)
   rt_error : forall e, j_error m = Some e -> j_method m = [] -> j_result m = [] -> err_rt_at (N.succ d) e }.
 Definition msg_rt (m : jmsg) : Prop := msg_rt_at 0 m.
+
+(* in that domain the error member the encoder writes is json.Marshal of the *Error *)
+Lemma enc_fields_rt d m eb : msg_rt_at d m ->
+  (forall e, j_error m = Some e -> negb (beq (j_method m) []) = false -> negb (beq (j_result m) []) = false -> enc_error e = Some eb) ->
+  (forall e, j_error m = Some e -> negb (beq (j_method m) []) = false -> negb (beq (j_result m) []) = false -> marshal_error e = Some eb).
+Proof.
+  intros [Rm Ri Rp Rr Re] He e Ee Em Er. apply (enc_error_rt (N.succ d) e eb); [|exact (He e Ee Em Er)].
+  apply (Re e Ee); [apply negb_false_iff, beq_eq in Em; exact Em | apply negb_false_iff, beq_eq in Er; exact Er].
+Qed.
 
 (* what a message denotes on the wire: the encoder ignores params without a method, a result next
    to a method, an error next to a result *)
@@ -972,7 +1057,8 @@ Section ParseBack.
   (* every encoded message parses back, under the library's own member parser, to the message it denotes *)
   Lemma parse_back_member m b : msg_rt m -> enc_msg m = Some b -> parse_member b = canon m.
   Proof.
-    intros Hrt Henc. destruct (enc_msg_fields _ _ Henc) as (eb & -> & He).
+    intros Hrt Henc. destruct (enc_msg_fields _ _ Henc) as (eb & -> & He0).
+    pose proof (enc_fields_rt 0 m eb Hrt He0) as He. clear He0.
     pose proof (fields_ok 0 m eb depth_le_2 Hrt He) as Hok.
     pose proof (Hmem _ (msg_fields_ne m eb) Hok) as Hraw.
     unfold parse_member, parse_member_ord, member_fields. rewrite Hraw, msg_fields_nodup.
@@ -1012,7 +1098,8 @@ Section ParseBack.
     exists eb, raw_members b = Some (msg_fields m eb) /\ lookup k_jsonrpc (msg_fields m eb) = Some v20 /\
                unmarshal_string v20 = Some (Some version).
   Proof.
-    intros Hrt Henc. destruct (enc_msg_fields _ _ Henc) as (eb & -> & He). exists eb.
+    intros Hrt Henc. destruct (enc_msg_fields _ _ Henc) as (eb & -> & He0).
+    pose proof (enc_fields_rt 0 m eb Hrt He0) as He. clear He0. exists eb.
     split; [exact (Hmem _ (msg_fields_ne m eb) (fields_ok 0 m eb depth_le_2 Hrt He))|]. split; [reflexivity | vm_compute; reflexivity].
   Qed.
 
@@ -1027,7 +1114,8 @@ Section ParseBack.
   Lemma parse_back_single m b : msg_rt m -> enc_msg m = Some b -> parse_msgs b = InMsgs false [canon m].
   Proof.
     intros Hrt Henc. pose proof (parse_back_member m b Hrt Henc) as Hpm.
-    destruct (enc_msg_fields _ _ Henc) as (eb & Hb & He).
+    destruct (enc_msg_fields _ _ Henc) as (eb & Hb & He0).
+    pose proof (enc_fields_rt 0 m eb Hrt He0) as He. clear He0.
     assert (Ht : tight_at 0 b = true).
     { rewrite Hb. apply Hobj; [apply msg_fields_ne | vm_compute; discriminate | exact (fields_ok 0 m eb depth_le_2 Hrt He)]. }
     unfold parse_msgs, split_msgs. rewrite Hb at 1. rewrite first_byte_obj. cbn [N.eqb Pos.eqb negb].
